@@ -441,7 +441,7 @@ impl Prop for C13 {
         let _ = table();
         let role = role_of(case);
         let users = vec![UserDef { name: "u".into(), password: "pw1".into(), role: "r".into() }];
-        let cfg = DaemonCfg { admin_token: ADMIN.into(), config_file_auth: true, roles: vec![role.clone()], users: users.clone(), unix_role: Some("r".into()), testbed: case.testbed, tcp: true };
+        let cfg = DaemonCfg { admin_token: ADMIN.into(), config_file_auth: true, roles: vec![role.clone()], users: users.clone(), unix_role: Some("r".into()), testbed: case.testbed, tcp: true, disk: false };
         let hashes = {
             static H: OnceLock<(String, String)> = OnceLock::new();
             let h = H.get_or_init(|| crate::httpd::hash_password("u", "pw1", 7)).clone();
